@@ -96,6 +96,10 @@ def run(ctx):
     ctx.rule("R4", "implicit SCF adjoint differentiates detached leaves and uses only ctx state")
     ctx.rule("R5", "unrolled backward mode (backward=True) updates the density out of place in every driver")
     ctx.rule("R6", "no singularity is merely masked by torch.where on a differentiable path (0*inf = NaN gradients)")
+    ctx.rule("R7", "caller-supplied parameter tensors survive packing: the packed dictionary contains every entry of the caller's dictionary")
+    ctx.rule("R8", "the SCF adjoint halves the unrestricted density like the forward drivers (it linearises the map the solver iterates)")
+    _r7_passthrough(ctx, repo)
+    _r8_adjoint_halving(ctx, repo)
     from .. import wherenan
     if wherenan.check(ctx, "R6") < 10:
         raise AnalysisError("C07-R6: where-sites with singular branches not inventoried")
@@ -416,3 +420,92 @@ def _rho_backward(ctx, cp, cname, sp):
     saves = [c for c in calls_in(fw) if callee_attr(c) == "save_for_backward"]
     ctx.check(bool(saves) and [norm(a) for a in saves[0].args] == [nm[0], D_name], "R3", cp, fw, f"{cname}.forward", "save_for_backward",
               f"{cname}: the converged root and the charge separation are saved for backward", f"{cname}: saved tensors changed")
+
+
+def _r7_passthrough(ctx, repo):
+    """Pack_Parameters.forward(Z, learned_params) returns the dictionary handed to the integrals.  Whatever the caller put into
+    learned_params (listed in `learned` or not: pair parameters such as Kbeta, g_ss_nuc) must still be in it, as the same tensor objects:
+    the returned dictionary is the parameter itself or is built from *all* of it (dict(p), p.copy(), {**p, ...}, d.update(p))."""
+    bas = repo.mod("seqm/basics.py")
+    f = bas.func("Pack_Parameters.forward")
+    params = [a.arg for a in f.args.args if a.arg != "self"]
+    if len(params) < 2:
+        raise AnalysisError("Pack_Parameters.forward signature changed")
+    lp = params[1]
+    rets = [r for r in ast.walk(f) if isinstance(r, ast.Return) and r.value is not None]
+    if not rets:
+        raise AnalysisError("Pack_Parameters.forward has no return")
+    defs = {}
+    for st in ast.walk(f):
+        if isinstance(st, ast.Assign) and len(st.targets) == 1 and isinstance(st.targets[0], ast.Name):
+            defs.setdefault(st.targets[0].id, []).append(st.value)
+
+    def full_copy_of_lp(e, depth=0):
+        """does `e` denote a dictionary that contains every entry of the caller's dictionary"""
+        if depth > 4:
+            return False
+        if isinstance(e, ast.Name):
+            if e.id == lp:
+                return True
+            # rebinding of the parameter to itself-or-default:  lp = lp if lp is not None else {}
+            ds = defs.get(e.id, [])
+            if ds and all(full_copy_of_lp(d, depth + 1) or _is_default_guard(d, lp) for d in ds):
+                # additionally: some later `e.update(lp)` also qualifies
+                return True
+            for c in calls_in(f):
+                if callee_attr(c) == "update" and isinstance(c.func, ast.Attribute) and norm(c.func.value) == e.id and c.args and full_copy_of_lp(c.args[0], depth + 1):
+                    return True
+            return False
+        if isinstance(e, ast.Call):
+            nm = call_name(e) or ""
+            if nm == "dict" and e.args and full_copy_of_lp(e.args[0], depth + 1):
+                return True
+            if callee_attr(e) == "copy" and isinstance(e.func, ast.Attribute) and full_copy_of_lp(e.func.value, depth + 1):
+                return True
+        if isinstance(e, ast.Dict):
+            return any(k is None and full_copy_of_lp(v, depth + 1) for k, v in zip(e.keys, e.values))
+        if isinstance(e, ast.IfExp):
+            if _is_default_guard(e, lp):
+                return True
+            # <full copy> if lp is not None else {}
+            return lp in norm(e.test) and full_copy_of_lp(e.body, depth + 1) and isinstance(e.orelse, (ast.Dict, ast.Call)) and not getattr(e.orelse, "keys", None)
+        return False
+    for r in rets:
+        first = r.value.elts[0] if isinstance(r.value, ast.Tuple) else r.value
+        ctx.check(full_copy_of_lp(first), "R7", bas, r, "Pack_Parameters.forward", r,
+                  f"the returned parameter dictionary `{norm(first)}` contains every entry of the caller's `{lp}` (same tensor objects)",
+                  f"the returned dictionary `{norm(first)}` is not the caller's `{lp}` nor built from all of it: entries the caller supplied but that are not re-inserted here "
+                  f"(pair parameters such as Kbeta, g_ss_nuc) are silently dropped - the energy stops depending on them and their gradient is None")
+    # tabulated entries are inserted by subscript store, never by a detaching copy of a caller tensor
+    for st in ast.walk(f):
+        if isinstance(st, ast.Assign) and isinstance(st.targets[0], ast.Subscript):
+            v = st.value
+            bad = any(isinstance(x, ast.Call) and callee_attr(x) in ("detach", "item", "tolist", "numpy", "clone") and lp in norm(x) for x in ast.walk(v))
+            ctx.check(not bad, "R7", bas, st, "Pack_Parameters.forward", st, "entries are stored without detaching caller tensors", f"`{short(norm(st), 70)}` stores a detached copy of a caller tensor")
+
+
+def _is_default_guard(e, lp):
+    """`lp if lp is not None else {}` / `lp or {}`"""
+    if isinstance(e, ast.IfExp):
+        return norm(e.body) == lp and isinstance(e.orelse, (ast.Dict, ast.Call)) and lp in norm(e.test)
+    if isinstance(e, ast.BoolOp) and isinstance(e.op, ast.Or):
+        return norm(e.values[0]) == lp
+    return False
+
+
+def _r8_adjoint_halving(ctx, repo):
+    scf = repo.mod("seqm/seqm_functions/scf_loop.py")
+    bw = scf.func("SCF.backward")
+    from ..guards import controlling
+    halves = [st for st in ast.walk(bw) if isinstance(st, ast.Assign) and isinstance(st.value, ast.BinOp) and isinstance(st.value.op, (ast.Div, ast.Mult))
+              and norm(st.targets[0]) == norm(st.value.left) and norm(st.value.right) in (("2", "2.0") if isinstance(st.value.op, ast.Div) else ("0.5",))]
+    ok = False
+    for h in halves:
+        ctrl = [(norm(a), p) for a, p, _ in controlling(scf, h)]
+        if any(p and a in ("unrestricted", "P.dim() == 4", "Pin.dim() == 4") for a, p in ctrl):
+            ok = True
+    # alternatively the rebuilt density comes from a helper that is itself asked for the per-spin density
+    ctx.check(ok, "R8", scf, halves[0] if halves else bw, "SCF.backward", halves[0] if halves else "Pout / 2",
+              "the density rebuilt inside the adjoint is halved under the unrestricted branch (builder returns 2 C C^T per spin)",
+              "SCF.backward does not halve the rebuilt unrestricted density: the implicit-function adjoint linearises P -> 2 C C^T instead of the per-spin map the forward "
+              "solver iterates; for open shells the adjoint fixed point diverges or returns wrong d(eps)/d(theta)")
